@@ -3,6 +3,7 @@
 #ifndef QSIM_STRUCT
 #define QSIM_STRUCT 1      // 0: this adapter is built without reading any private struct field (API-level oracles only)
 #endif
+#include <malloc.h>
 #include <algorithm>
 #include <deque>
 extern "C" {
@@ -231,29 +232,26 @@ struct ListWorld : World {
         case L_TOARRAY: {
             size_t sz = (size_t)-1; void *p;
             { InSut s; p = kind == K_GROW ? qg->toarray(qg, &sz) : l->toarray(l, &sz); }
-            if (!p) return R_fail();     // what *size holds after a refused call is not specified
+            if (!p) return R_fail(num((long long)sz));     // "size: the total size is stored" - also when there is nothing to return
             return take(p, sz, true, x, "toarray");
         }
         case L_TOSTRING: {
             // expected length from the list's own elements (a C-string reader cannot know it when NULs are embedded)
-            // "string representation" is only well defined for elements that are C strings (no NUL, or exactly one, at the end)
-            size_t len = 0; bool stringlike = true;
+            // expected length from the list's own elements (a C-string reader cannot know it when NULs are embedded): the
+            // pieces in order, each without one trailing NUL, as C09 quantifies over contents "with and without trailing or
+            // embedded NUL bytes"
+            size_t len = 0;
             if (!mt) {
                 Bookkeeping bk;
-                for (size_t i = 0; i < n; i++) {
-                    size_t es = 0; void *ep; { InSut s; ep = b->getat(b, (int)i, &es, false); }
-                    if (!(ep && es)) continue;
-                    const void *z = memchr(ep, 0, es);
-                    if (z && (const char *)z != (const char *)ep + es - 1) stringlike = false;
-                    len += es - (z ? 1 : 0);
-                }
+                for (size_t i = 0; i < n; i++) { size_t es = 0; void *ep; { InSut s; ep = b->getat(b, (int)i, &es, false); } if (ep && es) len += es - ((((char *)ep)[es - 1] == 0) ? 1 : 0); }
             }
             char *p;
             { InSut s; p = kind == K_GROW ? qg->tostring(qg) : l->tostring(l); }
             if (!p) return R_fail();
-            if (mt || !stringlike) len = strlen(p);    // concurrent programs only add NUL-free elements
-            Result r = take(p, len + 1, true, x, "tostring");
-            return stringlike ? r : R_ok("unspecified");
+            if (mt) len = strlen(p);    // concurrent programs only add NUL-free elements
+            // never read beyond the block the library returned: a shorter result is a wrong result, not a harness crash
+            size_t have = malloc_usable_size(p);
+            return take(p, std::min(len + 1, have), true, x, "tostring");
         }
         case L_WALK: case L_LOCKEDWALK: {
             bool newmem = op.d & NEWMEM;
@@ -376,18 +374,13 @@ Result ListModel::apply(const Op &op) {
     case L_SIZE: return R_ok(num((long long)n));
     case L_DATASIZE: { size_t s = 0; for (auto &e : q) s += e.size(); return R_ok(num((long long)s)); }
     case L_TOARRAY: {
-        if (n == 0) return R_fail();
+        if (n == 0) return R_fail("0");
         Bytes all; for (auto &e : q) all += e;
         return R_ok(encs(all));
     }
     case L_TOSTRING: {
         if (n == 0) return R_fail();
-        Bytes all;
-        for (auto &e : q) {
-            size_t z = e.find('\0');
-            if (z != Bytes::npos && z != e.size() - 1) return R_ok("unspecified");
-            all += z == Bytes::npos ? e : e.substr(0, e.size() - 1);
-        }
+        Bytes all; for (auto &e : q) all += (e[e.size() - 1] == '\0') ? e.substr(0, e.size() - 1) : e;
         all += '\0';
         return R_ok(encs(all));
     }
